@@ -593,7 +593,14 @@ func (f *Formatter) formatReturnStatement(stmt *ast.ReturnStatement) string {
 		if v := strings.TrimRight(f.formatComment(stmt.ParenthesisLeadingComments, " ", 0), " "); v != "" {
 			buf.WriteString(" " + v)
 		}
-		prefix := " "
+		// no separator at the head of a line (a line comment has ended the previous one)
+		separator := func() string {
+			if bytes.HasSuffix(buf.Bytes(), []byte("\n")) {
+				return ""
+			}
+			return " "
+		}
+		prefix := separator()
 		suffix := ""
 		// If ReturnStatementParenthesis is enabled and inside functional subroutine,
 		// the return argument must be surrounded by parenthesis
@@ -608,7 +615,7 @@ func (f *Formatter) formatReturnStatement(stmt *ast.ReturnStatement) string {
 		buf.WriteString(suffix)
 		// several comments are separated by a white space, like the comments of an expression
 		if v := strings.TrimRight(f.formatComment(stmt.ParenthesisTrailingComments, " ", 0), " "); v != "" {
-			buf.WriteString(" " + v)
+			buf.WriteString(separator() + v)
 		}
 	} else {
 		if v := f.formatComment(stmt.Infix, "", 0); v != "" {
